@@ -178,9 +178,7 @@ ApplyEnhance(m, r, explicit) ==
                IF ~HasField(m, pr[1]) \/ ~HasField(m, pr[2]) THEN x
                ELSE IF Skipped(x, m, pr[1]) THEN [x EXCEPT !.skip = @ \cup {S(m, pr[2])}]   \* unpinned source
                ELSE IF Has(x.msg, m, pr[1])
-               THEN IF pr[2] \in explicit /\ Has(x.msg, m, pr[2]) /\ x.msg[S(m, pr[2])] # ZeroExt(x.msg[S(m, pr[1])], 4)
-                    THEN [x EXCEPT !.skip = @ \cup {S(m, pr[2])}]
-                    ELSE [x EXCEPT !.msg = Put(@, S(m, pr[2]), ZeroExt(x.msg[S(m, pr[1])], 4))]
+               THEN [x EXCEPT !.msg = Put(@, S(m, pr[2]), ZeroExt(x.msg[S(m, pr[1])], 4))]   \* "each destination receives the slice of the source", also when the record carries the destination itself
                ELSE x,
              r, Enhance[m])
 
@@ -196,21 +194,18 @@ ExpandRecord(r0, explicit, accs) ==
         acD == IF doCsd THEN Accumulate(accs.dist, d12, 12) ELSE accs.dist
         r2  == IF doCsd
                THEN [r1 EXCEPT !.msg = Put(Put(@, S(20, 6), << spd % 256, spd \div 256 >>), S(20, 5), acD.a),
-                               !.skip = @ \cup (IF 6 \in explicit THEN {S(20, 6)} ELSE {})
-                                          \cup (IF 5 \in explicit THEN {S(20, 5)} ELSE {})
-                                          \cup {S(20, 73)}]
+                               !.skip = @ \cup {S(20, 73)}]
                ELSE r1
         doCyc == Has(r2.msg, 20, 18)
         acC == IF doCyc THEN Accumulate(accs.cyc, r2.msg[S(20, 18)][1], 8) ELSE accs.cyc
-        r3  == IF doCyc THEN [r2 EXCEPT !.msg = Put(@, S(20, 19), acC.a),
-                                        !.skip = @ \cup (IF 19 \in explicit THEN {S(20, 19)} ELSE {})]
+        r3  == IF doCyc THEN [r2 EXCEPT !.msg = Put(@, S(20, 19), acC.a)]
                ELSE r2
         skPow == Skipped(r3, 20, 28)
         doPow == Has(r3.msg, 20, 28)
         acP == IF skPow THEN Taint(accs.pow) ELSE IF doPow THEN Accumulate(accs.pow, U16(r3.msg[S(20, 28)]), 16) ELSE accs.pow
         r4  == IF skPow THEN [r3 EXCEPT !.skip = @ \cup {S(20, 29)}]
                ELSE IF doPow THEN [r3 EXCEPT !.msg = Put(@, S(20, 29), acP.a),
-                                        !.skip = @ \cup (IF 29 \in explicit \/ acP.bad THEN {S(20, 29)} ELSE {})]
+                                        !.skip = @ \cup (IF acP.bad THEN {S(20, 29)} ELSE {})]
                ELSE r3
     IN  [r |-> r4, accs |-> [dist |-> acD, cyc |-> acC, pow |-> acP],
          raw |-> [csd |-> doCsd, d12 |-> d12, b2 |-> IF doCsd THEN csd[3] ELSE 0, b1 |-> IF doCsd THEN csd[2] ELSE 0,
@@ -225,9 +220,7 @@ ExpandEvent(r0, explicit) ==
     IF Skipped(r0, 21, 2) \/ Skipped(r0, 21, 3) THEN [r0 EXCEPT !.skip = @ \cup { S(21, n) : n \in EventDests }]
     ELSE
     LET r1 == IF Has(r0.msg, 21, 2)
-              THEN IF 3 \in explicit /\ Has(r0.msg, 21, 3) /\ r0.msg[S(21, 3)] # ZeroExt(r0.msg[S(21, 2)], 4)
-                   THEN [r0 EXCEPT !.skip = @ \cup { S(21, n) : n \in EventDests }]
-                   ELSE [r0 EXCEPT !.msg = Put(@, S(21, 3), ZeroExt(@[S(21, 2)], 4))]
+              THEN [r0 EXCEPT !.msg = Put(@, S(21, 3), ZeroExt(@[S(21, 2)], 4))]
               ELSE r0
         hasD == Has(r1.msg, 21, 3)
         dv   == IF hasD THEN r1.msg[S(21, 3)] ELSE Zero4
@@ -241,7 +234,7 @@ ExpandEvent(r0, explicit) ==
                 ELSE IF ev \in {42, 43}
                 THEN [r1 EXCEPT !.msg = PutZ(PutZ(PutZ(PutZ(@, 11, << dv[1] >>, << 0 >>), 12, << dv[2] >>, << 0 >>), 9, << dv[3] >>, << 0 >>), 10, << dv[4] >>, << 0 >>)]
                 ELSE r1
-    IN  [r2 EXCEPT !.skip = @ \cup { S(21, n) : n \in (dests \cap explicit) }]
+    IN  r2
 
 ComponentMsgs == {18, 19, 20, 21, 142}
 
